@@ -37,6 +37,8 @@ SUPPRESS = [
 
 META["explanation"] += " " + '(PTR-follow, shared by C08 and C12) sibling cross-check over every delegation `value_->m(...)` in the public members of Value: the member asked of the pointee follows pointers itself (it reads value_) or is the caller; the Is...() predicates asked the one-level private tests.'
 
+META["explanation"] += " " + 'Taken over unchanged from other modules because a seeded change to this property was reported by them (rules.common.shared): PR-capacity/PR-rehash/WHO-hash from C13; O12-descendant from C16; PR-consumed from C04.'
+
 def zero_fields_of(mi, fn, depth=0):
     """names of fields of fn's class that are assigned 0/nullptr on the straight-line path of fn (setters followed)"""
     out = set()
@@ -189,7 +191,7 @@ def rule_zero(ctx):
 from rules.common import rule_pointer_follow
 
 
-def run(ctx):
+def _run_own(ctx):
     m = ctx.pattern()
     spec = valuetag.value_spec(m)
     t1 = Rule("TS-value", "every union member of Value is touched only under its kind (or (re)initialises a zero/moved payload)", floor=250)
@@ -433,3 +435,13 @@ def rule_merge_filter(ctx, m):
                 ok, why = False, "`%s` is appended without an isUndefined() test of that element" % rt[:50]
             r.ob(f.sig, f.text(x)[:60], ok, why, f.loc(x))
     return r
+
+
+def run(ctx):
+    rules_ = list(_run_own(ctx) or [])
+    from rules.common import shared
+    have = set(r_.rid for r_ in rules_)
+    rules_ += [r_ for r_ in shared(ctx, 'C13', ['PR-capacity', 'PR-rehash', 'WHO-hash']) if r_.rid not in have]
+    rules_ += [r_ for r_ in shared(ctx, 'C16', ['O12-descendant']) if r_.rid not in have]
+    rules_ += [r_ for r_ in shared(ctx, 'C04', ['PR-consumed']) if r_.rid not in have]
+    return rules_
